@@ -52,7 +52,10 @@ fn capacity_run(rep: &mut Report, dir: &std::path::Path, name: &str, sizes: &[us
     let mut out = Vec::new();
     for (i, ((size, seed), commit)) in sizes.iter().zip(seeds).zip(commits).enumerate() {
         let before = (mem.frame_count(), mem.next_frame_id(), mem.stats().ok().map(|s| (s.frame_count, s.payload_bytes, s.size_bytes)));
-        let payload = incompressible(&mut Rng(*seed), *size);
+        // two thirds incompressible binary (stored as is), one third UTF-8 text (stored compressed: the stored length differs
+        // from the input length, for short texts it is larger)
+        let payload = if seed % 3 == 0 { super::hist::text_of(&mut Rng(*seed), (*size).min(1200), "cap").into_bytes() } else { incompressible(&mut Rng(*seed), *size) };
+        let pending_before = mem.next_frame_id() as usize > mem.frame_count();
         let r = mem.put_bytes_with_options(&payload, opts(i as u64 + 1));
         match r {
             Ok(_) => out.push(Decision::Accepted),
@@ -74,18 +77,19 @@ fn capacity_run(rep: &mut Report, dir: &std::path::Path, name: &str, sizes: &[us
                 return Some(out);
             }
         }
-        if judge {
+        {
             if mem.stats().ok()?.wal_bytes != wal0 {
                 // offsets shifted: the baseline no longer applies
-                rep.inconclusive(json!({"reason": "WAL grew during a capacity history", "case": detail}));
+                if judge { rep.inconclusive(json!({"reason": "WAL grew during a capacity history", "case": detail})); }
                 return None;
             }
             let end = payload_end(&mem);
             rep.count("capacity_checks");
             if end > cap {
-                let pending = mem.next_frame_id() as usize > mem.frame_count();
-                let _ = pending;
-                rep.violation("C24:payload-end-exceeds-capacity:pending-bytes-ignored", format!("payload region ends at {end}, capacity is {cap} (over by {}) after put {i} (size {size}, commit {commit})", end - cap), detail.clone());
+                // the known defect needs accepted puts that were still un-committed when this put was judged; the twin run
+                // (commit after every put) and a put that follows a commit directly cannot be explained by it
+                let cause = if !judge || (*commit && !pending_before) { "no-pending-bytes" } else { "pending-bytes-ignored" };
+                rep.violation(&format!("C24:payload-end-exceeds-capacity:{cause}"), format!("payload region ends at {end}, capacity is {cap} (over by {}) after put {i} (input {} bytes, commit {commit}, twin run {})", end - cap, payload.len(), !judge), detail.clone());
                 return Some(out);
             }
         }
@@ -103,8 +107,65 @@ fn capacity_run(rep: &mut Report, dir: &std::path::Path, name: &str, sizes: &[us
     Some(out)
 }
 
+/// Capacity placed a few bytes around the exact stored end of one put (learnt from a probe run with a huge capacity), every
+/// put committed at once: the put that would end past the limit must be refused, the one that just fits may be accepted, and
+/// the committed payload region never ends beyond the capacity. Random deltas almost never land in this window of a few bytes.
+fn capacity_boundary(rep: &mut Report, dir: &std::path::Path, rng: &mut Rng) {
+    let n = rng.usize(1, 4);
+    let seeds: Vec<u64> = (0..n).map(|_| rng.next()).collect();
+    let sizes: Vec<usize> = (0..n).map(|_| match rng.below(4) { 0 => rng.usize(1, 40), 1 => rng.usize(40, 200), _ => rng.usize(200, 1500) }).collect();
+    let payload = |i: usize| -> Vec<u8> { if seeds[i] % 3 != 1 { super::hist::text_of(&mut Rng(seeds[i]), sizes[i].min(1200), "cap").into_bytes() } else { incompressible(&mut Rng(seeds[i]), sizes[i]) } };
+    let run = |name: &str, cap: u64| -> Option<(Vec<u64>, Vec<bool>, u64)> {
+        let path = dir.join(name);
+        let _ = std::fs::remove_file(&path);
+        let mut mem = Memvid::create(&path).ok()?;
+        mem.put_bytes_with_options(b"baseline document", opts(0)).ok()?;
+        mem.commit().ok()?;
+        let base_end = payload_end(&mem);
+        #[allow(deprecated)]
+        mem.apply_ticket(Ticket { issuer: "verif".into(), seq_no: 2, expires_in_secs: 0, capacity_bytes: Some(cap) }).ok()?;
+        let wal0 = mem.stats().ok()?.wal_bytes;
+        let (mut ends, mut accepted) = (Vec::new(), Vec::new());
+        for i in 0..n {
+            let r = mem.put_bytes_with_options(&payload(i), opts(i as u64 + 1));
+            accepted.push(r.is_ok());
+            mem.commit().ok()?;
+            if mem.stats().ok()?.wal_bytes != wal0 { return None; }
+            ends.push(payload_end(&mem));
+        }
+        Some((ends, accepted, base_end))
+    };
+    let Some((ends, _, base_end)) = run("probe.mv2", 1 << 40) else { return };
+    let j = rng.usize(0, n - 1);
+    let k = rng.range(-3, 14);
+    // never below what is already stored when the put arrives (a limit under the committed data cannot be honoured by refusing puts)
+    let before_j = if j == 0 { base_end } else { ends[j - 1] };
+    let cap = ((ends[j] as i64 - k).max(0) as u64).max(before_j);
+    let k = ends[j] as i64 - cap as i64;
+    let detail = json!({"mode": "c24-boundary", "sizes": sizes, "seeds": seeds, "put": j, "stored_end_of_that_put": ends[j], "capacity": cap, "k": k});
+    let Some((ends2, accepted, _)) = run("edge.mv2", cap) else { return };
+    rep.count("boundary_cases");
+    rep.count(if k > 0 { "boundary_cases_put_must_not_fit" } else { "boundary_cases_put_fits" });
+    for (i, end) in ends2.iter().enumerate() {
+        rep.count("capacity_checks");
+        if *end > cap {
+            rep.violation("C24:payload-end-exceeds-capacity:no-pending-bytes", format!("capacity {cap} = stored end of put {j} minus {k}; every put committed at once; after put {i} (accepted: {}) the payload region ends at {end} (over by {})", accepted[i], end - cap), detail.clone());
+            return;
+        }
+    }
+    // (whether a put that would fit is accepted is not part of the property: only the invariant is judged)
+    let _ = (&accepted, detail);
+}
+
 pub fn c24(rep: &mut Report, scratch: &std::path::Path, rng: &mut Rng, cases: u64) {
-    for c in ["capacity_checks", "rejections_checked", "twin_comparisons"] { rep.require(c); }
+    for c in ["capacity_checks", "rejections_checked", "twin_comparisons", "boundary_cases_put_must_not_fit"] { rep.require(c); }
+    for case in 0..cases {
+        rep.eval();
+        let dir = scratch.join(format!("edge{case}"));
+        let _ = std::fs::create_dir_all(&dir);
+        capacity_boundary(rep, &dir, rng);
+        let _ = std::fs::remove_dir_all(&dir);
+    }
     for case in 0..cases {
         rep.eval();
         let dir = scratch.join(format!("cap{case}"));
